@@ -1,4 +1,5 @@
 import TTV.Model.Result
+import TTV.Generated.C17
 import TTV.Model.ResC17
 import TTV.Spec.C17
 import TTV.Lemmas.ResEmit
@@ -1205,5 +1206,16 @@ example :
     obsScope i = true ∧ taggerBelowBuffer i = false ∧
     model i = { cur := [0, 1, 1, 2, 2, 10, 1, 1, 1], seen := [[(7, 2), (8, 1)], [(7, 6), (8, 1)]] } := by
   decide
+
+/-! ## tie to the source: the tag arithmetic translated from the code (harness/pyset2lean.py, regenerated on
+every run into `TTV/Generated/C17.lean`) is the model's -/
+
+/-- `TagContext.change_tags` as found in testtools/tags.py computes what the model's `TagSet.change` computes -/
+theorem C17_src_change_tags (cur new gone : TagSet) :
+    TTV.Generated.C17.changeTags_src cur new gone = TagSet.change cur new gone := rfl
+
+/-- `_merge_tags` as found in testtools/testresult/real.py is the model's `mergeTags` -/
+theorem C17_src_merge_tags (existing changed : TagSet × TagSet) :
+    TTV.Generated.C17.mergeTags_src existing changed = mergeTags existing changed := rfl
 
 end TTV.Props.C17
